@@ -37,6 +37,7 @@ def run(ctx):
     reset_coverage(ctx, f, cfg)
     expiry(ctx, f, cfg)
     gateway(ctx, f, cfg)
+    slot_decision(ctx, f, cfg)
 
 
 def construct(ctx, f, cfg):
@@ -160,6 +161,56 @@ def reset_coverage(ctx, f, cfg):
                 ctx.instance("C02.reset-coverage/fresh", b.path, "stamp-only relabel guarded by stamp == DEFAULT_TIME (never-used bucket): %s" % g, "true", g, cfg)
                 if not g:
                     ctx.violation("C02.reset-coverage", "C02.reset-coverage|fresh", "a bucket is given a new time stamp without resetting its value although it may have been used", b.loc(bb), config=cfg)
+
+
+
+def slot_decision(ctx, f, cfg):
+    """get_bucket_of_time, one attempt: a never-used slot is stamped and handed out; a slot of the requested bucket is handed out as it
+    is; an older slot is recycled (reset + re-labelled) or retried; the request is refused only when the slot is NEWER than the requested
+    bucket (time went backwards).  The decision must be a function of the order between the slot's stamp and the requested bucket
+    start alone - any other test (e.g. the readers' strict expiry predicate) leaves orderings that are neither current nor recyclable
+    and silently drops the event."""
+    bs = f.find("LeapArray::<T>::get_bucket_of_time")
+    if not ctx.floor("C02.slot-decision", "LeapArray::get_bucket_of_time", len(bs), 1):
+        return
+    b = bs[0]
+    roles = [("target", ["call:calculate_start_stamp"], ["call:BucketWrap::<T>::start_stamp"]), ("stamp", ["call:BucketWrap::<T>::start_stamp"], ["call:calculate_start_stamp"])]
+
+    def oname(t, atoms):
+        n = callee_def(t).rsplit("::", 1)[-1]
+        return n
+    w = D.Walker(f, b, make_classifier(roles), opaque_name=oname)
+    paths = w.walk(0, lambda bb, env: None)
+    resets = {bb for bb, t in b.calls() if callee_def(t).rsplit("::", 1)[-1] == "reset_bucket"}
+    stamps = {bb for bb, t in b.calls() if callee_def(t).rsplit("::", 1)[-1] == "reset_start_stamp"}
+    yields = {bb for bb, t in b.calls() if callee_def(t).rsplit("::", 1)[-1] in ("yield_now",)}
+
+    def outcome(p, asg):
+        blocks = set(p["blocks"])
+        if blocks & resets or blocks & yields:
+            return "recycle-or-retry"
+        if blocks & stamps:
+            return "fresh"
+        if p["outcome"][0] != "return":
+            return "recycle-or-retry" if p["outcome"][0] in ("loop", "cut") else str(p["outcome"][0])
+        is_err = any(st["k"] == "assign" and st["lhs"]["l"] == 0 and st["rv"]["k"] == "agg" and st["rv"].get("variant") == "Err" for x in p["blocks"] for st in b.blocks[x]["stmts"]) or \
+            any(callee_def(t).endswith(("Error::msg", "anyhow::Error::msg", "::msg")) for x in p["blocks"] for t in [b.term(x)] if t and t["k"] == "call")
+        return "refused" if is_err else "hit"
+
+    def expected(asg):
+        r0 = D.rel_of(asg, "stamp", "const:0")
+        rt = D.rel_of(asg, "target", "stamp")
+        if r0 is None or rt is None:
+            return None
+        if r0 == "=":
+            return "fresh"
+        return {"=": "hit", ">": "recycle-or-retry", "<": "refused"}[rt]
+    n, ncon, mism = run_table(ctx, "C02.slot-decision", b.path, cfg, paths, outcome, expected)
+    ok = not mism and ncon >= 4
+    ctx.instance("C02.slot-decision", b.path, {"rows": n, "constrained": ncon, "mismatches": mism[:3]},
+                 "never used -> stamp; stamp == bucket -> hit; stamp < bucket -> recycle/retry; stamp > bucket -> refuse", ok, cfg)
+    if not ok:
+        ctx.violation("C02.slot-decision", "C02.slot-decision|get_bucket_of_time", "the write path does not decide on the order of (slot stamp, requested bucket) alone: %s" % (mism[:2] or "comparisons not found (%d constrained rows)" % ncon), b.loc(), config=cfg)
 
 
 def _bool_fn_table(ctx, f, b, rule, roles, expected, text, cfg, min_rows=3):
@@ -306,6 +357,43 @@ def gateway(ctx, f, cfg):
     ctx.instance("C02.window-gateway/range-inputs", rng.path, sorted(short(a) for a in at if a.startswith(("call:core", "field:core", "param:", "op:")))[:10], need, not missing, cfg)
     if missing:
         ctx.violation("C02.window-gateway", "C02.window-gateway|range-inputs|" + ",".join(missing), "the window's start range does not depend on %s" % missing, rng.loc(), config=cfg)
+    # the window reaches the array's buckets only through that filter: no other data accessor of the underlying array is called on
+    # `inner` (a delegated whole-ring statistic would report events older than the window)
+    def _touches_array(path):
+        par = f.reach_bodies([path])
+        for q in par:
+            for blk in f.bodies[q].blocks:
+                if blk["cleanup"]:
+                    continue
+                for st in blk["stmts"]:
+                    if st["k"] != "assign":
+                        continue
+                    rv = st["rv"]
+                    pls = [rv["pl"]] if "pl" in rv else []
+                    pls += [rv[k]["pl"] for k in ("op", "a", "b") if isinstance(rv.get(k), dict) and rv[k].get("pl")]
+                    for pl in pls:
+                        if any(pj.endswith("LeapArray.array") for pj in pl["p"]):
+                            return True
+        return False
+    inner_calls, leaks = [], []
+    for p2, b in f.bodies.items():
+        if not (b.impl_self == SWM or p2.startswith(SWM + "::")):
+            continue
+        s3 = Slicer(f, b)
+        for bb, t in b.calls():
+            if not t["args"] or not any_atom(s3.of_operand(t["args"][0]), "field:SlidingWindowMetric.inner"):
+                continue
+            for tgt in f.call_targets(b, t) or []:
+                if tgt in f.bodies and ("LeapArray" in tgt) and _touches_array(tgt):
+                    nm = tgt.rsplit("::", 1)[-1]
+                    inner_calls.append(nm)
+                    if nm != "get_valid_values_conditional":
+                        leaks.append("%s calls inner.%s" % (p2.rsplit("::", 1)[-1], nm))
+    ctx.instance("C02.window-gateway/inner-access", SWM, {"data_accessors_called_on_inner": sorted(set(inner_calls)), "not_window_filtered": leaks},
+                 "only get_valid_values_conditional", not leaks and "get_valid_values_conditional" in inner_calls, cfg)
+    if leaks or "get_valid_values_conditional" not in inner_calls:
+        ctx.violation("C02.window-gateway", "C02.window-gateway|inner-access|" + ",".join(sorted(set(x.rsplit(".", 1)[-1] for x in leaks)) or ["none"]),
+                      "SlidingWindowMetric reads the underlying array's buckets without its window filter: %s" % (leaks or "filter call not found"), config=cfg)
     # every value read in SlidingWindowMetric's statistics comes from the filtered lists
     bad = []
     n = 0
